@@ -1,5 +1,5 @@
 (* C14 - property theorems. *)
-From ASV.C14 Require Import Model Proofs.
+From ASV.C14 Require Import Model Proofs Proofs2 Proofs3.
 
 (* module construction never fails and partitions the (stably sorted, non-docking) domains in order,
    without loss or duplication, into non-empty modules - for every finite domain sequence over the
@@ -22,12 +22,57 @@ Theorem C14_complete_iff : forall m,
 Proof. exact is_complete_iff. Qed.
 Print Assumptions C14_complete_iff.
 
+(* the layout rules are an invariant of add_component: whatever look-ahead (a prefix of the remaining
+   input) is supplied, an accepted component keeps the slots functions of the component list and the
+   rules true of it (LQ: first starter / the loader / first carrier protein / the end are the slots;
+   explicit starter only in front; one loader; no NRPS/PKS mix; one end and only special domains
+   after it; every further carrier protein directly followed by a registered pair; modifications
+   after a carrier protein only as trans-AT KR or member of such a pair) *)
+Theorem C14_layout_step : forall m c la rest m',
+  inv12 m (c :: rest) -> LQ m (c :: rest) -> la = firstn (length la) rest ->
+  add_component m c la = Ok m' -> LQ m' rest.
+Proof. exact LQ_step. Qed.
+Print Assumptions C14_layout_step.
+
+(* every module returned by build_modules_for_cds obeys the module rules (layout_weak: the decidable
+   specification over the component list alone, Model.v) and its slots and trans-AT flag are the
+   documented functions of its components.
+   Partial: layout_weak lets a module hold MORE than two carrier proteins as long as each extra one is
+   directly followed by a registered DOUBLE_TRANSPORTER_CASES pair; the bound "one, or two in the
+   double-transporter case" of the property (layout_spec) is refuted below and holds exactly for the
+   modules with at most two carrier proteins (C14_layout_spec_guarded). *)
+Theorem C14_layout_inv_partial : forall domains ms,
+  Forall (fun c => c_classified c = true) domains ->
+  build_modules_for_cds domains = Ok ms -> Forall rules_ok ms.
+Proof. exact build_layout. Qed.
+Print Assumptions C14_layout_inv_partial.
+
+Theorem C14_layout_spec_guarded : forall m,
+  rules_ok m -> (cnt c_cp (m_comps m) <= 2)%nat -> layout_spec (m_comps m) = true.
+Proof. exact rules_strict. Qed.
+Print Assumptions C14_layout_spec_guarded.
+
+(* finding: KS ACP ACP LPG Beta ACP LPG Beta is ONE module with three carrier proteins *)
+Theorem C14_layout_cp_at_most_two_refuted :
+  exists domains ms m, build_modules_for_cds domains = Ok ms /\ In m ms /\
+    Forall (fun c => c_classified c = true) domains /\
+    cnt c_cp (m_comps m) = 3%nat /\ layout_spec (m_comps m) = false.
+Proof. exact cp_at_most_two_refuted. Qed.
+Print Assumptions C14_layout_cp_at_most_two_refuted.
+
+(* a module rebuilt from its saved form (replay of add_component over the stored components, look-ahead
+   = the rest of the module) is accepted and is the identical module: all slots, lists and flags *)
+Theorem C14_reload : forall domains ms,
+  Forall (fun c => c_classified c = true) domains ->
+  build_modules_for_cds domains = Ok ms -> Forall (fun m => reload m = Ok m) ms.
+Proof. exact build_reload. Qed.
+Print Assumptions C14_reload.
+
 (* merging keeps all domains of head and tail in order (plus the trailing KR of the documented
    trans-AT case), replaces exactly the last module of the previous gene and removes exactly the
    merged modules of the current gene, happens only for an incomplete head and only if the merged
-   module is complete; otherwise both lists are returned untouched.
-   Partial: that combine_modules never raises is covered by the correspondence run only. *)
-Theorem C14_combine_shape_partial : forall same current previous om p' c',
+   module is complete; otherwise both lists are returned untouched *)
+Theorem C14_combine_shape : forall same current previous om p' c',
   combine_modules same current previous = Ok (om, p', c') ->
   match om with
   | None => p' = previous /\ c' = current
@@ -41,7 +86,25 @@ Theorem C14_combine_shape_partial : forall same current previous om p' c',
              m_comps m = (keep (m_comps head) ++ keep (m_comps tail)) ++ keep [kr]))
   end.
 Proof. exact combine_shape. Qed.
-Print Assumptions C14_combine_shape_partial.
+Print Assumptions C14_combine_shape.
+
+(* for every pair of genes and either strand relation: both constructions succeed, combine_modules
+   never raises, every module of the two resulting lists (the merged one included) obeys the module
+   rules and reloads identically, a merged module is complete and is produced only on the same strand,
+   and without a merge both lists are returned untouched *)
+Theorem C14_combine_total : forall prev cur same,
+  Forall (fun c => c_classified c = true) prev -> Forall (fun c => c_classified c = true) cur ->
+  exists p c om p' c',
+    build_modules_for_cds prev = Ok p /\ build_modules_for_cds cur = Ok c /\
+    combine_modules same c p = Ok (om, p', c') /\
+    Forall (fun m => rules_ok m /\ reload m = Ok m) p' /\
+    Forall (fun m => rules_ok m /\ reload m = Ok m) c' /\
+    match om with
+    | Some m => rules_ok m /\ reload m = Ok m /\ is_complete m = true /\ same = true
+    | None => p' = p /\ c' = c
+    end.
+Proof. exact combine_total. Qed.
+Print Assumptions C14_combine_total.
 
 (* the generated tables satisfy what the proofs need (re-checked when the source changes) *)
 Theorem C14_table_double_cases_plain :
@@ -49,10 +112,41 @@ Theorem C14_table_double_cases_plain :
 Proof. exact table_double_cases_plain. Qed.
 Print Assumptions C14_table_double_cases_plain.
 
+(* every registered pair fits the two-component look-ahead window of build_modules_for_cds *)
+Theorem C14_table_cases_fit_window :
+  forallb (fun case => (length case =? 2)%nat) Tables_gen.c14_double_transporter_cases = true.
+Proof. exact table_cases_len2. Qed.
+Print Assumptions C14_table_cases_fit_window.
+
+(* the classes are disjoint as far as the state machine relies on it *)
+Theorem C14_table_classes :
+  forallb (fun l => class_ok (mkComp l 0 0 0)) (concat Tables_gen.c14_classification_order) = true.
+Proof. exact table_class_ok. Qed.
+Print Assumptions C14_table_classes.
+
 (* ---- non-vacuity: a real assembly line, incl. the double carrier protein case ---- *)
 Example C14_ex_build :
-  let ks := Tables_gen.c14_L_PKS_KR in
   exists ms, build_modules_for_cds
     [mkComp 41 1 0 10; mkComp 1 0 1 20; mkComp 1 0 2 30; mkComp 28 0 3 40; mkComp 11 0 4 50; mkComp 41 0 5 60]
-    = Ok ms /\ length ms = 2%nat.
-Proof. eexists. split; [vm_compute; reflexivity|reflexivity]. Qed.
+    = Ok ms /\ length ms = 2%nat /\ Forall (fun m => reload m = Ok m /\ layout_spec (m_comps m) = true) ms.
+Proof. eexists. split; [vm_compute; reflexivity|]. split; [reflexivity|]. repeat constructor. Qed.
+
+(* a merge that happens, with the trailing KR of the trans-AT case: [KS(trans-AT)] + [ACP] [KR] *)
+Example C14_ex_combine :
+  exists p c m p' c',
+    build_modules_for_cds [mkComp 41 1 0 10] = Ok p /\
+    build_modules_for_cds [mkComp 1 0 1 10; mkComp 40 0 2 20] = Ok c /\
+    combine_modules true c p = Ok (Some m, p', c') /\ length (m_comps m) = 3%nat /\ c' = [].
+Proof. do 5 eexists. repeat split; vm_compute; reflexivity. Qed.
+
+(* the step invariant is met by a real intermediate state: [KS, ACP] about to take a second ACP *)
+Example C14_ex_step_hyps :
+  exists m, replay (empty_module true) [mkComp 41 1 0 10; mkComp 1 0 1 20] = Ok m /\
+    inv12 m [mkComp 1 0 2 30; mkComp 28 0 3 40; mkComp 11 0 4 50] /\
+    LQ m [mkComp 1 0 2 30; mkComp 28 0 3 40; mkComp 11 0 4 50].
+Proof.
+  eexists. split; [vm_compute; reflexivity|]. split.
+  - split; [discriminate|left; reflexivity].
+  - constructor; try reflexivity.
+    split; intros H; vm_compute in H; [exfalso; inversion H as [|? H1]; inversion H1|discriminate].
+Qed.
